@@ -99,3 +99,7 @@ fn c16_tcp_probe_table_v4() {
 fn c16_tcp_probe_table_v6() {
     tcp_table_capacity(true);
 }
+
+fn verif_reset_statics() {
+    sock::reset();
+}
